@@ -9,7 +9,7 @@ from .common import *
 
 META = {
     "level": "other",
-    "explanation": "Sibling agreement between _parse and _build of every class -- each rule is a necessary condition: if it breaks in one sibling there is a construct/value with parse(build(v)) != v. (R1) both directions consult the same constructor parameters (through __init__ dataflow, so encmapping/decmapping both count as `mapping`) in the same way (evaluated against the context or raw); by-design one-sided parameters are a frozen table with one reason each; (R2) the set of (configuration guard, exception class) pairs is identical in _parse and _build and those of _sizeof are a subset; (R3) the symbolic net amount _parse takes from the stream equals the amount _build puts into it, after substituting what _build writes into a length field for what _parse reads from it (position algebra, shared with C05.R2); (R4) the transformation chain between the stream and the value is inverted: build applies the inverse helpers (independent table) in reverse order, conditional steps guarded by the same evaluated flag, for BytesInteger, BitsInteger, FormatField, StringEncoded, Tunnel/Compressed; (R5) value-supplying constructs: Rebuild builds EVAL(func), Default builds obj unless it is None, Computed/Index/Tell/Seek/Pointer/Check/StopIf have identical parse and build summaries modulo the direction of the sub-call; (R6) member loops run over self.subcons forwards in both directions, Array/GreedyRange/RepeatUntil build the supplied elements in order, Array build checks the element count. (R7) shared delimiter/encoding rules both directions rest on: canonical LEB128 of VarInt._build and the same group width in _parse (interval analysis, C03.R7), the terminator unit table (C03.R2), NullTerminated's unit-wide reads and step-back by len(term) (C08.R2), NullStripped drops only bytes compared equal to the pad (C08.R4). (R8) build-then-parse through generated code: the translation-validation obligations of every emitter (shared with C04.R3/R7/R8).",
+    "explanation": "Sibling agreement between _parse and _build of every class -- each rule is a necessary condition: if it breaks in one sibling there is a construct/value with parse(build(v)) != v. (R1) both directions consult the same constructor parameters (through __init__ dataflow, so encmapping/decmapping both count as `mapping`) in the same way (evaluated against the context or raw); by-design one-sided parameters are a frozen table with one reason each; (R2) the set of (configuration guard, exception class) pairs is identical in _parse and _build and those of _sizeof are a subset; (R3) the symbolic net amount _parse takes from the stream equals the amount _build puts into it, after substituting what _build writes into a length field for what _parse reads from it (position algebra, shared with C05.R2); (R4) the transformation chain between the stream and the value is inverted: build applies the inverse helpers (independent table) in reverse order, conditional steps guarded by the same evaluated flag, for BytesInteger, BitsInteger, FormatField, StringEncoded, Tunnel/Compressed; (R5) value-supplying constructs: Rebuild builds EVAL(func), Default builds obj unless it is None, Computed/Index/Tell/Seek/Pointer/Check/StopIf have identical parse and build summaries modulo the direction of the sub-call; (R6) member loops run over self.subcons forwards in both directions, Array/GreedyRange/RepeatUntil build the supplied elements in order, Array build checks the element count. (R7) shared delimiter/encoding rules both directions rest on: canonical LEB128 of VarInt._build and the same group width in _parse (interval analysis, C03.R7), the terminator unit table (C03.R2), NullTerminated's unit-wide reads and step-back by len(term) (C08.R2), NullStripped drops only bytes compared equal to the pad (C08.R4). (R8) build-then-parse through generated code: the translation-validation obligations of every emitter (shared with C04.R3/R7/R8). R7 also re-states the bit-level machinery (C10.R1/R2/R4/R6) and the inversion structure of the byte transforms (C15.R1/R2/R4/R7).",
     "undecided": "Value equality itself: arithmetic inside the lib.binary helpers, VarInt/ZigZag algebra (engine I decides three obligations in C03.R7), user adapters and callbacks.",
     "trusted_base": ["python ast (3.12)", "sa.summ summariser", "sa.pos / sa.amounts position algebra", "sa/tables.py INVERSE_PAIRS"],
     "assumptions": ["sub-constructs are themselves symmetric (induction over nesting)"],
@@ -444,7 +444,19 @@ def run(ctx):
     C07.member_store_checks(ctx, "C01.R7")    # what a member parsed or built (derived members included) is visible to the members after it, in both directions
     from . import C13
     C13.flag_test(ctx, "C01.R7")          # FlagsEnum: a label is reported exactly when all bits of its mask are present (what _encode ORs back)
-    ctx.floor("C01.R7", 23)
+    # bit-level and byte-transforming constructs (named in the property): the stream machinery and the inversion structure, shared
+    from ..core import Ctx as _Ctx
+    from . import C10, C15
+    for mod, rules in ((C10, ("C10.R1", "C10.R2", "C10.R4", "C10.R6")), (C15, ("C15.R1", "C15.R2", "C15.R4", "C15.R7"))):
+        sub = _Ctx(mod.__name__.split(".")[-1], ctx.tier, ctx.root, model=ctx.model)
+        sub._summ = summariser(ctx)
+        mod.run(sub)
+        for e in sub.errors:
+            ctx.error("shared %s rules: %s" % (sub.prop, e))
+        for o in sub.obligations:
+            if o.rule in rules:
+                ctx.ob("C01.R7", o.where, o.ok, o.what, key=o.key, loc=o.loc, detail=o.detail)
+    ctx.floor("C01.R7", 23 + 60)
     # ---------------------------------------------------------------- R8 the compiled form of every construct class (shared with C04.R3/R7/R8)
     from . import C04
     C04.shared_obligations(ctx, "C01.R8", None)
